@@ -23,6 +23,8 @@ type DirPlan struct {
 	WriteDeadlineMs int    `json:"wdl,omitempty"`        // 0 = none
 	End             string `json:"end"`                  // cw | close | none
 	EndAfterMs      int    `json:"endafter,omitempty"`   // > 0: End runs concurrently with the writes, after this delay
+	PastDeadlineMs  int    `json:"pastdl,omitempty"`     // > 0: after this delay a second goroutine moves the write deadline into the past
+	PastDeadlineAll bool   `json:"pastdlall,omitempty"`  // ... using SetDeadline instead of SetWriteDeadline
 	EndAfterUsMax   int    `json:"endafterus,omitempty"` // > 0: End runs concurrently, after a seed-derived delay below this many microseconds
 	Reads           []int  `json:"reads"`                // buffer sizes, cycled
 	ReadMode        string `json:"rmode"`                // drain | some | stall
@@ -238,6 +240,26 @@ func runWorkload(wl Workload) *traceResult {
 			if d.WriteDeadlineMs > 0 {
 				s.SetWriteDeadline(time.Now().Add(time.Duration(d.WriteDeadlineMs) * time.Millisecond))
 			}
+			pastDone := make(chan struct{})
+			if d.PastDeadlineMs > 0 {
+				// while the Write below is parked on an exhausted window, another
+				// goroutine sets a deadline that has already expired
+				go func() {
+					defer close(pastDone)
+					time.Sleep(time.Duration(d.PastDeadlineMs) * time.Millisecond)
+					past := time.Now().Add(-time.Second)
+					t0 := time.Now()
+					var err error
+					if d.PastDeadlineAll {
+						err = s.SetDeadline(past)
+					} else {
+						err = s.SetWriteDeadline(past)
+					}
+					res.calls.add("setdeadline", t0, lim(0), err)
+				}()
+			} else {
+				close(pastDone)
+			}
 			endDone := make(chan struct{})
 			endAction := func() {
 				defer close(endDone)
@@ -294,6 +316,7 @@ func runWorkload(wl Workload) *traceResult {
 				endAction()
 			}
 			<-endDone
+			<-pastDone
 		}()
 		go func() { // reader
 			defer sideWG.Done()
@@ -697,7 +720,16 @@ func genWorkload(r *rand.Rand, thorough, zeroReads, concurrent bool) Workload {
 			if r.Intn(5) == 0 {
 				dp.StallMs = 1 + r.Intn(15)
 			}
-			if total > 0 && dp.End != "none" && r.Intn(5) == 0 {
+			if total > win && win > 0 && r.Intn(4) == 0 {
+				// the Write parks on the exhausted window; its deadline is then
+				// moved into the past from outside; the reader drains later
+				dp.PastDeadlineMs = 2 + r.Intn(6)
+				dp.StallMs = dp.PastDeadlineMs + 10 + r.Intn(10)
+				dp.ReadMode = "drain"
+				if dp.End == "none" {
+					dp.End = "cw"
+				}
+			} else if total > 0 && dp.End != "none" && r.Intn(5) == 0 {
 				dp.EndAfterMs = 1 + r.Intn(8)
 			} else if total > 0 && dp.End != "none" && r.Intn(4) == 0 {
 				dp.EndAfterUsMax = 50 + r.Intn(2000)
